@@ -34,6 +34,7 @@ package generator
 // ---- invented names (C07) -----------------------------------------------------------------------------------
 
 //@ func packageName(profile profile.Profile) string
+//@   verify [C13]
 //@   ensures [C07:package-name] result == "profile_" + reReplaceAll(reCompile("[^a-zA-Z0-9]+"), strToLower(profile.Name), "_")
 
 //@ func pkg(profile profile.Profile) string
@@ -118,6 +119,7 @@ package generator
 //@   ensures [C01:results] allResults(result) && len(result) >= 1
 
 //@ func GenerateAnd(and profile.AndRule, iriExpander *misc.IriExpander) []BranchRegoResult
+//@   verify [C15,C07]
 //@   requires [C01:wf] wfRule(box(profile.AndRule, and))
 //@   ensures [C01:fails-iff-not-holds] anyFails(result) == !holds(box(profile.AndRule, and))
 //@   ensures [C01:non-empty] len(result) >= 1
@@ -148,6 +150,7 @@ package generator
 //@     invariant [C01] anyFails(branches) == anyBranchFailsG(take(r, #i)) && (len(branches) > 0) == hasBranch(take(r, #i))
 
 //@ func expandBranches(regoResults []SimpleRegoResult, branchsets [][]BranchRegoResult) []BranchRegoResult
+//@   verify [C15]
 //@   ensures [C01:cross-product] anyFails(result) == (allFail(regoResults) && allAnyB(branchsets))
 //@   requires [C01:non-empty-sets] allNonEmptyB(branchsets)
 //@   ensures [C01:non-empty] len(result) >= 1
@@ -163,6 +166,7 @@ package generator
 //@     invariant [C01] len(orAcc) == len(acc) && anyFails(take(orAcc, #i)) == anyAllF(take(acc, #i))
 
 //@ func GenerateOr(or profile.OrRule, iriExpander *misc.IriExpander) []BranchRegoResult
+//@   verify [C15,C07]
 //@   requires [C01:operands] allOk(or.Body) && len(or.Body) >= 1
 //@   ensures [C01:fails-iff-not-holds] anyFails(result) == !holds(box(profile.OrRule, or))
 //@   ensures [C01:non-empty] len(result) >= 1
